@@ -55,11 +55,34 @@ def record(ctx, scenarios, nbig):
     return fs, bfs
 
 
+def count_overflows(l):
+    """coverage statistic only (never an oracle): transfers of an accepted 64-bit block whose sender could pay but whose
+    receiver would exceed 2^64-1, found by replaying the block on the recorded numbers"""
+    bal = {a: int(v) for a, v in l["pre"].items()}
+    n = 0
+    for t, r in zip(l["txs"], l["out"]["results"]):
+        bal[t["sponsor"]] -= int(r["fee"])
+        snap = dict(bal)
+        for a in t["actions"]:
+            v = int(a["value"])
+            if v == 0 or a["memo"] > 256 or bal[t["actor"]] < v:
+                bal = snap
+                break
+            if bal[a["to"]] + (0 if a["to"] == t["actor"] else v) > MAXU64:
+                n += 1
+                bal = snap
+                break
+            bal[t["actor"]] -= v
+            bal[a["to"]] += v
+    return n
+
+
 def stats(ctx, files, big=False):
     feats = {"blocks": 0, "txs": 0, "actions": 0, "failed_tx": 0, "rejected_blocks": 0, "self_transfers": 0,
              "sponsor_is_not_actor": 0, "records_deleted": 0, "records_created": 0, "txs_with_ge8_actions": 0,
              "delete_then_recreate_in_one_tx": 0,
-             "accounts_emptied": 0, "accounts_funded_from_zero": 0}
+             "accounts_emptied": 0, "accounts_funded_from_zero": 0,
+             "overflow_rejections": 0}
     shapes = set()
     sample = None
     n_lines = 0
@@ -81,6 +104,8 @@ def stats(ctx, files, big=False):
                 feats["rejected_blocks"] += 1
                 continue
             nontrivial = False
+            if big:
+                feats["overflow_rejections"] += count_overflows(l)
             for t, r in zip(l["txs"], out["results"]):
                 feats["txs"] += 1
                 feats["actions"] += len(t["actions"])
@@ -261,7 +286,9 @@ def run(ctx):
     num = {"fails": [], "exc": None}
     th = None
     if bfiles:
-        stats(ctx, bfiles, big=True)
+        bfeats = stats(ctx, bfiles, big=True)
+        if bfeats["overflow_rejections"] == 0:
+            raise vlib.Infra("vacuous: no 64-bit block contains a transfer rejected for overflowing the receiver")
 
         def work():
             try:
